@@ -14,6 +14,7 @@ const GRMS: &[(&str, &str)] = &[
 ];
 
 pub fn run(kind: &str, src: &str) -> Outcome {
+    crate::note_case("c10_api", json!({"kind": kind, "grammar": src}));
     let expected = "every accessor answers for every index below the corresponding *_len()".to_string();
     let yk = if kind == "eco" { YaccKind::Eco } else { YaccKind::Original(YaccOriginalActionKind::UserAction) };
     let grm = match YaccGrammar::<u32>::new_with_storaget(yk, src) { Ok(g) => g, Err(_) => return Outcome { fails: false, observed: "not a grammar".into(), expected } };
